@@ -171,7 +171,7 @@ class AppRun:
 
     def __init__(self, site, argv, chooser, *, strategy=None, workdir=None,
                  connect='immediate', watchdog=20.0, horizon=60000, early=True,
-                 hooks=None):
+                 hooks=None, peer=None):
         self.site, self.argv, self.chooser = site, list(argv), chooser
         self.strategy = strategy
         self.workdir = workdir
@@ -181,6 +181,7 @@ class AppRun:
         self.early = early
         self.watchdog = watchdog
         self.hooks = hooks or {}
+        self.custom_peer = peer
         self.result = None
 
     def run(self, faults=None, on_step=None, on_quiescent=None, setup=None):
@@ -190,7 +191,7 @@ class AppRun:
         loop = VLoop().install()
         loop.watchdog = self.watchdog
         env = Env(loop)
-        peer = SitePeer(self.site, self.strategy)
+        peer = self.custom_peer or SitePeer(self.site, self.strategy)
         net = Net(loop, env, peer, connect=self.connect).install()
         # fake connections remember the host *name* through the resolver table
         orig_open = net.open_connection
@@ -229,7 +230,7 @@ class AppRun:
                     out['exc'] = repr(main.exception())
                 else:
                     out['exit'] = main.result()
-            out['requests'] = peer.requests
+            out['requests'] = getattr(peer, 'requests', None)
             out['rows'] = self.rows()
             out['env_log'] = list(env.log)
             out['loop_errors'] = loop.collect_errors()
